@@ -42,6 +42,56 @@ PairLines(pairs) == [i \in 1..Len(pairs) |-> <<"pair", pairs[i][1], pairs[i][2]>
 FullText(c) == <<<<"head">>>> \o PairLines(c.pairs) \o [i \in 1..Len(Tables) |-> <<"td", Tables[i]>>] \o RowLines(c.rows)
 AppendText(pairs, rows) == <<<<"note">>>> \o PairLines(pairs) \o RowLines(rows)
 
+(* ---- the table set (quantifier: "starting from any table set") ----                                   *)
+(* A table set gives every table its columns: a name, a kind of value and a dimension (0 = one value,    *)
+(* k > 0 = an array of k values).  A column belongs to ITS table: two tables may use the same column name *)
+(* for a scalar in one and an array in the other, for arrays of different lengths, or for values of       *)
+(* different kinds.  Row n of a table holds, in column order, a cell that is a function of the column and *)
+(* of n alone; the harness concretises kind + number into a real value (and back), nothing else.          *)
+(* None of the actions below reads the table set: the line-level outcome of every history is the same for *)
+(* all of them (TableSetIndependent); what the table set decides is what the CELLS of a row are.          *)
+Col(name, kind, dim) == [name |-> name, kind |-> kind, dim |-> dim]
+Kinds == {"int", "str", "big"}          \* 32-bit integer, text (some need quoting), 64-bit id beyond a double
+IdCol == Col("n", "int", 0)             \* every table starts with its integer row id
+TableSetNames == {"plain", "sharedScalarArray", "sharedArrayScalar", "sharedLength", "sharedKind"}
+TableSetDef(s) ==      \* columns of the first and of the second table
+  CASE s = "plain"             -> << <<IdCol, Col("s", "str", 0), Col("big", "big", 0)>>,   <<IdCol, Col("arr", "int", 2)>> >>
+    [] s = "sharedScalarArray" -> << <<IdCol, Col("tag", "str", 0), Col("big", "big", 0)>>, <<IdCol, Col("tag", "str", 2)>> >>
+    [] s = "sharedArrayScalar" -> << <<IdCol, Col("v", "int", 2), Col("s", "str", 0)>>,     <<IdCol, Col("big", "big", 0), Col("v", "int", 0)>> >>
+    [] s = "sharedLength"      -> << <<IdCol, Col("arr", "int", 3), Col("s", "str", 0)>>,   <<IdCol, Col("arr", "int", 2)>> >>
+    [] s = "sharedKind"        -> << <<IdCol, Col("x", "str", 0), Col("big", "big", 0)>>,   <<IdCol, Col("x", "int", 0), Col("w", "str", 2)>> >>
+TableIndex(t) == CHOOSE i \in DOMAIN Tables : Tables[i] = t
+ColsOf(s, t) == TableSetDef(s)[((TableIndex(t) - 1) % 2) + 1]
+TableSetRec(s) == [name |-> s, cols |-> [t \in TableSet |-> ColsOf(s, t)]]
+CellOf(col, n) == [kind |-> col.kind, arr |-> col.dim > 0,
+                   v |-> IF col.dim = 0 THEN <<n>> ELSE [j \in 1..col.dim |-> n + j - 1]]
+RowCells(s, t, n) == LET cs == ColsOf(s, t) IN [i \in 1..Len(cs) |-> CellOf(cs[i], n)]
+TableCells(s, rows) == [t \in TableSet |-> [i \in 1..Len(rows[t]) |-> RowCells(s, t, rows[t][i])]]
+NoCells == [t \in TableSet |-> <<>>]
+(* what a fresh object read from the object's file holds (nothing when there is no such file) *)
+FreshRead(s, fsv, objv) ==
+  IF objv.fname # NoFile /\ fsv[objv.fname].exists
+  THEN LET c == [rows |-> [t \in TableSet |-> RowsOf(fsv[objv.fname].lines, t)], pairs |-> PairsOf(fsv[objv.fname].lines)]
+       IN [readable |-> TRUE, rows |-> c.rows, pairs |-> c.pairs, cells |-> TableCells(s, c.rows)]
+  ELSE [readable |-> FALSE, rows |-> NoRows, pairs |-> <<>>, cells |-> NoCells]
+(* laws of the table sets *)
+TableSetWellFormed(s) == \A t \in TableSet : LET cs == ColsOf(s, t) IN
+  /\ cs[1] = IdCol
+  /\ \A i, j \in 1..Len(cs) : (cs[i].name = cs[j].name) => i = j          \* within ONE table names are unique
+  /\ \A i \in 1..Len(cs) : cs[i].kind \in Kinds /\ cs[i].dim \in 0..3
+RowIdRecoverable(s) == \A t \in TableSet : \A n \in 0..3 : RowCells(s, t, n)[1] = [kind |-> "int", arr |-> FALSE, v |-> <<n>>]
+(* the dimension is not vacuous: some table set shares a column name between the tables with different shape / length / kind *)
+SharesColumn(s, P(_, _)) == \E i \in 1..Len(TableSetDef(s)[1]) : \E j \in 1..Len(TableSetDef(s)[2]) :
+  /\ TableSetDef(s)[1][i].name = TableSetDef(s)[2][j].name /\ TableSetDef(s)[1][i] # IdCol
+  /\ P(TableSetDef(s)[1][i], TableSetDef(s)[2][j])
+TableSetsCoverSharing ==
+  /\ \E s \in TableSetNames : SharesColumn(s, LAMBDA a, b : a.dim = 0 /\ b.dim > 0)
+  /\ \E s \in TableSetNames : SharesColumn(s, LAMBDA a, b : a.dim > 0 /\ b.dim = 0)
+  /\ \E s \in TableSetNames : SharesColumn(s, LAMBDA a, b : a.dim > 0 /\ b.dim > 0 /\ a.dim # b.dim)
+  /\ \E s \in TableSetNames : SharesColumn(s, LAMBDA a, b : a.kind # b.kind)
+  /\ \E s \in TableSetNames : \A i \in 1..Len(TableSetDef(s)[1]) : \A j \in 1..Len(TableSetDef(s)[2]) :
+        TableSetDef(s)[1][i].name = TableSetDef(s)[2][j].name => TableSetDef(s)[1][i] = IdCol
+
 Nothing(pairs, rows) == pairs = <<>> /\ \A t \in TableSet : rows[t] = <<>>
 Bound == obj.fname # NoFile
 
